@@ -1824,3 +1824,34 @@ Section Layout.
     - eapply sim_trans; eauto.
   Qed.
 End Layout.
+
+(* ========================================================================================== *)
+(* L. every expression of a file                                                                *)
+
+Definition preamble_m (ls : list string) : list (nat * string) :=
+  fst (group (map (fun p => (fst p, classify_m (snd p))) (number 1 ls))).
+Definition preamble_exprs (ls : list string) : list string :=
+  flat_map (fun p => match asg_of (snd p) with Some (_, rhs) => [rhs] | None => [] end) (preamble_m ls).
+Definition section_exprs (sec : section) : list string :=
+  let '(_, _, ps) := sec in
+  let L := kvs ps in
+  (match last_of KMatch L with Some m => [m] | None => [] end)
+    ++ map snd (lets_of L) ++ map snd (dict_of [] (fields_of L)).
+Definition file_exprs_m (ls : list string) : list string :=
+  preamble_exprs ls ++ flat_map section_exprs (sections_m ls).
+
+Lemma m_reject_invalid_section_expr pyparse ls sec e :
+  In sec (sections_m ls) -> In e (section_exprs sec) -> pyparse e = false ->
+  is_ok (parse_merchants pyparse ls) = false.
+Proof.
+  destruct sec as [[n0 name] ps]. intros Hs He Hp.
+  destruct (build_rule pyparse (n0, name, ps)) as [r|n' k'] eqn:B.
+  - exfalso. apply build_rule_spec in B. cbn zeta in B.
+    destruct B as (_ & _ & _ & M & _ & _ & _ & _ & _ & L & F & _ & PM & PL & PF).
+    unfold section_exprs in He. rewrite M in He. rewrite <- L, <- F in He.
+    apply in_app_or in He as [[<-|[]]|He]; [congruence|].
+    apply in_app_or in He as [He|He]; apply in_map_iff in He as ([x e'] & <- & Hin).
+    + pose proof (forallb_in _ _ _ PL Hin) as Y. cbn in Y, Hp. congruence.
+    + pose proof (forallb_in _ _ _ PF Hin) as Y. cbn in Y, Hp. congruence.
+  - eapply parse_m_bad_section; eauto.
+Qed.
